@@ -14,8 +14,8 @@ META = dict(
                "join rule. The model is tied to the Go code on every run by exact equality on dash arrays x offsets x lengths and "
                "Path.Dash's output on straight-line paths is judged against the specification with certificates re-checked in Coq.",
     level_note="Trusted: Coq kernel + vm_compute; the hand-written model is tied by differential testing (dyadic grid inputs), "
-               "not by a proof about Go source. SplitAt's arc-length inversion on Beziers/arcs is not modelled (C09); curved paths "
-               "are not covered by this check.",
+               "not by a proof about Go source. SplitAt's arc-length inversion on Beziers/arcs is not modelled (C09): Dash on curved paths "
+               "(K3 one Bezier, K4 one elliptical arc, K5 curves followed by a line) is checked per output against enclosures, not proved.",
     harness=["c05"],
 )
 
